@@ -373,11 +373,12 @@ func vfKinds(msg *ClientComMessage) (string, string, string) {
 // facts about the state before the input, computed independently of the code under test, for the
 // model correspondence: v=ver set, u=logged in, r=root, a=session attached to the addressed topic,
 // l=topic loaded in the hub, s=live subscription row of the user exists in the store, d=row incl. soft-deleted;
-// then what the in-topic default-access site reads (coq/Sys/PanicSites.v this_user_sub / another_user_sub), taken
-// from the loaded topic while every topic goroutine is parked: c=category of the loaded topic (0 me 1 fnd 2 p2p 3 grp
-// 4 sys, 9 not loaded), e=the session's user has a perUser entry, x=it is marked deleted, j=its modeWant has J,
-// h=(modeGiven & modeWant).IsSharer(); t=set.sub.user of the request (0 absent, 1 unparsable, 2 another user, 3 the
-// session's own user), f=that user has no live perUser entry
+// then what the in-topic default-access site reads (coq/Sys/PanicSites.v this_user_sub / another_user_sub):
+// c=category of the loaded topic (0 me 1 fnd 2 p2p 3 grp 4 sys, 9 not loaded; t.cat is immutable after init),
+// e=the session's user has a live subscription, x=0, j=its modeWant has J, h=(modeGiven & modeWant).IsSharer()
+// (taken from the stored row, which the topic's perUser cache mirrors: the cache itself is owned by the topic
+// goroutine and is not read from here); t=set.sub.user of the request (0 absent, 1 unparsable, 2 another user,
+// 3 the session's own user), f=that user has no live subscription
 func vfPre(s *Session, topic string, subUser string) string {
 	b := func(x bool) string {
 		if x {
@@ -445,11 +446,17 @@ func vfPre(s *Session, topic string, subUser string) string {
 			case types.TopicCatSys:
 				cat = "4"
 			}
-			if pud, ok := t.perUser[s.uid]; ok {
-				pe, px, pj, ph = true, pud.deleted, pud.modeWant.IsJoiner(), (pud.modeGiven & pud.modeWant).IsSharer()
+			rowName := name
+			if strings.HasPrefix(topic, "chn") {
+				rowName = topic
+			}
+			if !s.uid.IsZero() {
+				if sub, err := store.Subs.Get(rowName, s.uid, false); err == nil && sub != nil {
+					pe, pj, ph = true, sub.ModeWant.IsJoiner(), (sub.ModeGiven & sub.ModeWant).IsSharer()
+				}
 			}
 			if !target.IsZero() {
-				if pud, ok := t.perUser[target]; ok && !pud.deleted {
+				if sub, err := store.Subs.Get(name, target, false); err == nil && sub != nil {
 					tf = false
 				}
 			}
